@@ -18,7 +18,7 @@ RULE = ('quick: every outline AST with <=4 nodes and nesting <=2 over {step, if/
         'scripts to length 12; non-trivial when at least one predicate or >=2 calls were made')
 RULE += ('; also: steps that register awaitables, a description of the outline asked for first, decorated step functions, chains with a required output nobody emits')
 ASSUMPTIONS = ['predicates return real booleans', 'ToContext returns are C10\'s business', 'interpreter written from the property statement']
-REQUIRED = ['runs', 'ended/return', 'ended/value', 'ended/end', 'nodes/if', 'nodes/while', 'nodes/ret', 'calls_compared', 'falsy_stop_values', 'steps_registering_awaitables', 'value_with_awaitable', 'described_first', 'required_output_missing', 'decorated_steps_called']
+REQUIRED = ['runs', 'ended/return', 'ended/value', 'ended/end', 'nodes/if', 'nodes/while', 'nodes/ret', 'calls_compared', 'falsy_stop_values', 'steps_registering_awaitables', 'value_with_awaitable', 'described_first', 'required_output_missing', 'decorated_steps_called', 'non_bool_predicates']
 EXHAUSTIVE = {'quick': True, 'thorough': False}
 BOUNDS = {'quick': 'ASTs <=4 nodes depth<=2, predicate scripts <=4, exhaustive after de-duplication', 'thorough': '+5-node ASTs sampled, 4000 random ASTs depth<=4'}
 STOPVALS = [0, '', False, 7]
@@ -57,6 +57,9 @@ def gen_cases(tier, seed):
                     if how == 'value' or len(seen) % 8 == 0:
                         # the same run with every step also registering an awaitable through to_context()
                         yield {'ast': ast, 'preds': p[:np] if np <= len(p) else p, 'rets': r[:ns], 'awaits': True}
+                    if np and len(seen) % 3 == 2:
+                        # the same run with predicates that answer with a list / string / object instead of a bool
+                        yield {'ast': ast, 'preds': p[:np] if np <= len(p) else p, 'rets': r[:ns], 'pred_style': 'containers' if len(seen) % 2 else 'objects'}
                     if len(seen) % 4 == 1:
                         # the same run in a chain that declares a required output nobody emits: unsuccessful, same result
                         yield {'ast': ast, 'preds': p[:np] if np <= len(p) else p, 'rets': r[:ns], 'must': True}
@@ -84,6 +87,7 @@ def run_case(case):
         return {'viol': [], 'obs': obs, 'inconclusive': 'interpreter-budget', 'key': case, 'nontrivial': False}
     cls = outlines.outline_class(ast, must=bool(case.get('must')))
     obs['required_output_missing'] = int(bool(case.get('must')))
+    obs['non_bool_predicates'] = int(bool(case.get('pred_style')))
     obs['decorated_steps_called'] = sum(1 for t in exp_trace if t in outlines.DECORATED)
     viol = []
     V = judges.V
@@ -96,7 +100,7 @@ def run_case(case):
     obs['steps_registering_awaitables'] = int(awaits and any(t.startswith('s') for t in exp_trace))
     obs['value_with_awaitable'] = int(awaits and how == 'value')
     with Driver(5000) as drv:
-        wc = cls(inputs={'preds': list(preds), 'rets': list(rets), 'awaits': awaits}, loop=drv.loop)
+        wc = cls(inputs={'preds': list(preds), 'rets': list(rets), 'awaits': awaits, 'pred_style': case.get('pred_style')}, loop=drv.loop)
         task = drv.loop.create_task(wc.step_until_terminated())
         incon = None
         try:
